@@ -289,6 +289,22 @@ func record(sub string, c interface{}, v Verdict) (fail bool, replay string) {
 	return false, ""
 }
 
+// Tally records one more evaluation that belongs to the case being judged (a property whose case
+// fans out into many executions, e.g. one per injected fault) and, when key is not empty, one more
+// distinct non-trivial element.
+func Tally(sub, key string, labels ...string) {
+	st.mu.Lock()
+	defer st.mu.Unlock()
+	st.out.Evaluations++
+	st.out.SubCounts[sub]++
+	for _, l := range labels {
+		st.out.Labels[l]++
+	}
+	if key != "" {
+		st.hashes[hash64(sub+"\x00"+key)] = struct{}{}
+	}
+}
+
 // Sub is one generated sub-check of a property.
 type Sub struct {
 	Name     string
